@@ -79,7 +79,7 @@ NodeAddress(w, st, r) ==
 TcAddress(w, sec, st, r) ==
     (w.tcSelf = 1) => (sec.flagTcEui = 1 /\ sec.tcEui = st.eui /\ r.tcPartner = st.eui)
 
-Clauses == {"SecurityStateExact", "StoreHolds", "RoundTrip", "OrderOk", "Completed", "NodeAddress", "TcAddress"}
+Clauses == {"SecurityStateExact", "StoreHolds", "RoundTrip", "OrderOk", "Completed", "NodeAddress", "TcAddress", "ReadMatchesStore"}
 Violated(e) == {c \in Clauses :
     ~(CASE c = "SecurityStateExact" -> (e.completed = 1 => SecurityStateExact(e.ver, e.w, e.sec))
         [] c = "StoreHolds" -> (e.completed = 1 => StoreHolds(e.ver, e.w, e.st))
@@ -87,5 +87,7 @@ Violated(e) == {c \in Clauses :
         [] c = "OrderOk" -> (e.completed = 1 => OrderOk(e.order))
         [] c = "NodeAddress" -> (e.completed = 1 => NodeAddress(e.w, e.st, e.r))
         [] c = "TcAddress" -> (e.completed = 1 => TcAddress(e.w, e.sec, e.st, e.r))
+        \* a child left the NCP's table (a hole below occupied slots), then the settings are read again: the child table read is the NCP's
+        [] c = "ReadMatchesStore" -> ((e.completed = 1 /\ e.second = 1) => ToSet(e.r2children) = ToSet(e.st2children))
         [] c = "Completed" -> e.completed = 1)}
 =============================================================================
